@@ -656,7 +656,7 @@ func (st *State) call(x *ssa.Call) []*State {
 	}
 	// package functions with bodies
 	if f := cc.StaticCallee(); f != nil && f.Blocks != nil && f.Pkg == st.Fn.Pkg {
-		if ip.isPurePredicate(f) {
+		if !ip.InlineCalls && ip.isPurePredicate(f) {
 			var parts []string
 			for i, a := range args {
 				parts = append(parts, "⟦"+ip.regForm(st.intOf(a, cc.Args[i].Type(), "p"))+"⟧")
